@@ -10,6 +10,7 @@ import (
 	"fmt"
 	"net"
 	"net/url"
+	"sort"
 	"strings"
 	"sync"
 	"time"
@@ -225,6 +226,13 @@ func callsChild(t *tr.Writer, c callsCase) {
 	}
 }
 
+func abs(x int) int {
+	if x < 0 {
+		return -x
+	}
+	return x
+}
+
 func maxPayload(kind string) int {
 	if kind == "udp" {
 		return 65499
@@ -247,8 +255,28 @@ func c12Child(t *tr.Writer, e *callsEnv, c callsCase) {
 				lens = append(lens, 65536, 1<<20+1)
 			}
 		}
+		// every length in a window below and above each power of two (buffer and segment sizes), random bytes
+		sweep := map[int]bool{}
+		for _, b := range []int{256, 512, 1024, 2048, 4096, 8192, 16384, 32768, 65536} {
+			for d := -20; d <= 2; d++ {
+				if n := b + d; n <= maxPayload(c.Kind) && (c.Thorough || b == 4096 || b == 65536 || d >= -1) {
+					sweep[n] = true
+				}
+			}
+		}
 		for _, n := range lens {
-			for _, p := range []string{"zeros", "header", "random"} {
+			delete(sweep, n)
+		}
+		for n := range sweep {
+			lens = append(lens, -n) // negative: swept length
+		}
+		sort.Slice(lens, func(i, j int) bool { return abs(lens[i]) < abs(lens[j]) })
+		for _, n := range lens {
+			patterns := []string{"zeros", "header", "random"}
+			if n < 0 {
+				n, patterns = -n, []string{"random"}
+			}
+			for _, p := range patterns {
 				payload := append([]byte("RAW:"), pattern(p, n-4, c.Seed)...)
 				t.Emit(tr.Rec{"ev": "sent", "n": len(payload), "h": digest(payload)})
 				resp, err := rawRequest(cl, payload)
@@ -436,6 +464,23 @@ func c13Child(t *tr.Writer, e *callsEnv, c callsCase) {
 			}
 			t.Emit(tr.Rec{"ev": "ret", "kind": errKind(err), "detail": d})
 		}
+		// the limit is lowered while the client's connection is established: it holds for the next request
+		if half := limit / 2; half >= 16 {
+			e.svc.MaxRequestLength = half
+			time.Sleep(2 * time.Millisecond)
+			for _, n := range []int{half - 1, half, half + 1, limit} {
+				payload := append([]byte("RAW:"), pattern("random", n-4, c.Seed+1)...)
+				t.Emit(tr.Rec{"ev": "req", "n": n, "limit": half, "decl": "truthful"})
+				_, err := rawRequest(cl, payload)
+				d := ""
+				if err != nil {
+					d = err.Error()
+				}
+				t.Emit(tr.Rec{"ev": "ret", "kind": errKind(err), "detail": d})
+			}
+			e.svc.MaxRequestLength = limit
+			time.Sleep(2 * time.Millisecond)
+		}
 		// through a published function as well
 		if limit >= 100 {
 			t.Emit(tr.Rec{"ev": "req", "n": 0, "limit": limit, "decl": "call"})
@@ -608,6 +653,12 @@ func c11Child(t *tr.Writer, e *callsEnv, c callsCase) {
 			return err
 		})
 		fault("oversized-response", invoke("big", n))
+		if c.Kind == "udp" {
+			// every response size around what one datagram carries (the body is the result plus 10 bytes)
+			for r := 65470; r <= 65512; r++ {
+				fault(fmt.Sprintf("response-size-%d", r+10), invoke("big", r))
+			}
+		}
 	case "frames":
 		u, _ := url.Parse(e.env.URL)
 		for _, f := range c12Frames(c.Kind, []byte("RAW:frame-body-of-fault")) {
